@@ -7,8 +7,8 @@
 EXTENDS Registry, Json, IOUtils
 
 Rec == ndJsonDeserialize(IOEnv.TRACE)
-VARIABLES l, bad5, bad6, f2, drift, sid, hid
-tvars == <<vars, l, bad5, bad6, f2, drift, sid, hid>>
+VARIABLES l, bad5, bad6, f2, f32, drift, sid, hid
+tvars == <<vars, l, bad5, bad6, f2, f32, drift, sid, hid>>
 
 SetOf(q) == {q[i] : i \in DOMAIN q}
 ObsOf(r) ==
@@ -78,41 +78,47 @@ V3Ok(r) ==
                  [] OTHER -> NoDup(ent[r.t]) =>
                                LET q == SelectSeq(EntOf(r.t, cur[r.t]), LAMBDA s : ~h[s]) IN
                                v.chain = (IF q = << >> THEN << >> ELSE VisH(Ancestors(Last(q)), h))
+       \* (a handle given up inside a layer's on_event rides on a carrier event of the harness, which layer 3 may see)
+       ELSE IF r.op = "drop" /\ "inside" \in DOMAIN r /\ r.inside = "event" THEN v.events <= 1
        ELSE v.events = 0
 IdOk(r) == (r.op = "new" => r.serial = n' /\ r.id # 0 /\ \A s \in 1..n : (open[s] /\ own[s] = cur[r.t]) => sid[s] # r.id)
 
+\* hazard (finding F32): the last handle of a span with a parent given up by user code INSIDE a collector callback (a layer's
+\* on_event) under a scoped default: the parent's reference is released through get_default, which is re-entered there and
+\* hands out no collector - the parent never closes (the same call site as F2; only the trace knows where a drop happens)
+Hazard32(r) == ViaDefault /\ r.op = "drop" /\ "inside" \in DOMAIN r /\ r.inside = "event" /\ par[r.s] # NoS
 \* Do, with the trace-only checks (current span, id uniqueness) folded into `good`
 DoT(r) ==
   /\ Pre(r)
   /\ AEffect(r, ObsOf(r))
   /\ MEffect(r)
-  /\ tainted' = (tainted \/ Hazard(r))
+  /\ tainted' = (tainted \/ Hazard(r) \/ Hazard32(r))
   /\ good' = (good /\ AOk(r, ObsOf(r)) /\ (SetOf(r.live) = {s \in 1..n' : open'[s]}) /\ CurOk(r) /\ CbOk(r) /\ ClOk(r) /\ V3Ok(r) /\ IdOk(r))
   /\ lastop' = r
 
-TraceInit == Init /\ l = 0 /\ bad5 = << >> /\ bad6 = << >> /\ f2 = << >> /\ drift = << >> /\ sid = [s \in SpanIds |-> 0]
+TraceInit == Init /\ l = 0 /\ bad5 = << >> /\ bad6 = << >> /\ f2 = << >> /\ f32 = << >> /\ drift = << >> /\ sid = [s \in SpanIds |-> 0]
              /\ hid = [s \in SpanIds |-> FALSE]
 TraceNext ==
   /\ l < Len(Rec)
   /\ l' = l + 1
   /\ LET r == Rec[l + 1] IN
-       CASE r.ev = "reset" -> Reset /\ UNCHANGED <<bad5, bad6, f2, drift>>
+       CASE r.ev = "reset" -> Reset /\ UNCHANGED <<bad5, bad6, f2, f32, drift>>
          \* the last references of a span released by several threads at once (RefCountRace): closed exactly once, each round
          [] r.ev = "racedrop" ->
-              /\ UNCHANGED <<vars, sid, hid, bad6, f2, drift>>
+              /\ UNCHANGED <<vars, sid, hid, bad6, f2, f32, drift>>
               /\ bad5' = (IF r.closes = r.rounds /\ r.dup = 0 /\ r.missing = 0 /\ r.panics = 0 /\ ~("panic" \in DOMAIN r) THEN bad5 ELSE Append(bad5, l + 1))
          \* user code panicked (caught) while it held a span's extensions; the span closed and later spans reused its slot:
          \* nothing of it - stale data, a poisoned lock - may be visible to them
          [] r.ev = "poison" ->
-              /\ UNCHANGED <<vars, sid, hid, bad6, f2, drift>>
+              /\ UNCHANGED <<vars, sid, hid, bad6, f2, f32, drift>>
               /\ bad5' = (IF r.poisoned = r.rounds /\ r.panics = 0 /\ r.stale = 0 THEN bad5 ELSE Append(bad5, l + 1))
-         [] r.ev = "crash" -> UNCHANGED <<vars, sid, hid>> /\ bad5' = Append(bad5, l + 1) /\ bad6' = Append(bad6, l + 1) /\ UNCHANGED <<f2, drift>>
+         [] r.ev = "crash" -> UNCHANGED <<vars, sid, hid>> /\ bad5' = Append(bad5, l + 1) /\ bad6' = Append(bad6, l + 1) /\ UNCHANGED <<f2, f32, drift>>
          \* after an F2 hazard the real registries may be corrupted, and after a first disagreement the
          \* model no longer tracks the implementation: the rest of that history is not judged
          [] r.ev = "op" /\ (tainted \/ ~good) ->
-              UNCHANGED <<vars, sid, hid, bad5, bad6, f2, drift>>
+              UNCHANGED <<vars, sid, hid, bad5, bad6, f2, f32, drift>>
          [] r.ev = "op" /\ ~(tainted \/ ~good) ->
-              IF ~Sane(r) THEN UNCHANGED <<cur, avars, mvars, tainted, lastop, sid, hid, f2, drift>> /\ good' = FALSE
+              IF ~Sane(r) THEN UNCHANGED <<cur, avars, mvars, tainted, lastop, sid, hid, f2, f32, drift>> /\ good' = FALSE
                                /\ bad5' = Append(bad5, l + 1) /\ bad6' = Append(bad6, l + 1)
               ELSE
               /\ DoT(r)
@@ -124,13 +130,14 @@ TraceNext ==
                    \* only the first failing operation of a behaviour is reported (later ones may be consequences)
                    /\ bad5' = (IF ok5 \/ ~good \/ tainted' THEN bad5 ELSE Append(bad5, l + 1))
                    /\ bad6' = (IF ok6 \/ ~good \/ tainted' THEN bad6 ELSE Append(bad6, l + 1))
-                   /\ f2' = (IF (ok5 /\ ok6) \/ ~good \/ ~tainted' THEN f2 ELSE Append(f2, l + 1))
+                   /\ f2' = (IF (ok5 /\ ok6) \/ ~good \/ ~tainted' \/ (Hazard32(r) /\ ~Hazard(r)) THEN f2 ELSE Append(f2, l + 1))
+                   /\ f32' = (IF (ok5 /\ ok6) \/ ~good \/ ~(Hazard32(r) /\ ~Hazard(r)) THEN f32 ELSE Append(f32, l + 1))
               /\ drift' = (IF tainted' \/ r.op = "drop2" \/ (ObsOf(r).closes = MObs(r).closes /\ ObsOf(r).par = MObs(r).par
                                          /\ ObsOf(r).got = MObs(r).got /\ ObsOf(r).chain = MObs(r).chain)
                            THEN drift ELSE Append(drift, l + 1))
 TraceSpec == TraceInit /\ [][TraceNext]_tvars
 
-Report == l = Len(Rec) => PrintT("@@BAD5 " \o ToJson(bad5)) /\ PrintT("@@BAD6 " \o ToJson(bad6)) /\ PrintT("@@F2 " \o ToJson(f2)) /\ PrintT("@@DRIFT " \o ToJson(drift))
+Report == l = Len(Rec) => PrintT("@@BAD5 " \o ToJson(bad5)) /\ PrintT("@@BAD6 " \o ToJson(bad6)) /\ PrintT("@@F2 " \o ToJson(f2)) /\ PrintT("@@F32 " \o ToJson(f32)) /\ PrintT("@@DRIFT " \o ToJson(drift))
 Consumed == IF TLCGet("stats").diameter = Len(Rec) + 1 THEN TRUE
             ELSE PrintT("@@STUCK " \o ToJson(TLCGet("stats").diameter)) /\ FALSE
 =============================================================================
